@@ -1347,6 +1347,10 @@ func (rn *run) respond(w http.ResponseWriter, form, codec string, herr int) {
 				h["Trailer-"+k] = v
 			}
 		}
+		if hd.Comp != "" && formEnveloped(form) {
+			body = compressAs(hd.Comp, body) // a compressed failure page, declared the HTTP way
+			h.Set("Content-Encoding", hd.Comp)
+		}
 		rn.writeResponse(w, status, body, nil)
 		return
 	}
